@@ -580,7 +580,11 @@ class Runner:
         if key in self.reported:
             return
         self.reported.add(key)
-        if len(self.reported) > 6:     # enough replays; the rest is counted only
+        # enough replays; the rest is counted only (separate budgets, so that tie disagreements without
+        # an input never crowd out concrete failing inputs)
+        kind = "n_noinput" if no_input else "n_concrete"
+        setattr(self, kind, getattr(self, kind, 0) + 1)
+        if getattr(self, kind) > (3 if no_input else 6):
             self.stats["further_failures_not_reported"] = self.stats.get("further_failures_not_reported", 0) + 1
             return
         self.ctx.violation(what, payload, no_input=no_input)
@@ -973,6 +977,8 @@ def run(ctx):
         items.append((f"generated#{k}", g.pick(WIDTHS), gen_module(g, steer=not g.chance(1, 8))))
     for i in range(0, len(items), 500):
         r.module_batch(items[i:i + 500], f"modules seed={ctx.seed}")
+    # 4a. boundary sizes and parser path independence
+    size_stats = size_boundary_leg(ctx, r, model_ok)
     # 4b. the command-line formatter on a scratch project
     cli_stats = cli_leg(ctx, r, rng.fork())
     # 5. one dedicated probe per open finding
@@ -1010,7 +1016,7 @@ def run(ctx):
                                    "format_preserves_meaning / eval_regroup (every expression, every interpretation: same value/trap and event order)",
                                    "roundtrip_str (every lexed string literal)", "roundtrip_pattern (every pattern)", "paren_insensitive", "parseFuel_stable",
                                    "roundtrip_expr_in_context", "former_witnesses_roundtrip", "member_name_before_lt"],
-        "composed_with_C09": composed, "cli_leg": cli_stats,
+        "composed_with_C09": composed, "cli_leg": cli_stats, "size_boundary_leg": size_stats,
         "legacy": "Model/Fmt.lean (round-2 fragment with opaque call arguments / if / match; theorems roundtrip_expr_partial, paren_insensitive used by C09b / C13b) is executed next to the full model on every line in its fragment (stats legacy_model_*)",
         "pending": ["still opaque: identifiers/literals, member names with their explicit type arguments, the type annotation of a `let`, lambda parameter lists; patterns are modelled separately (Model/FmtPat.lean, roundtrip_pattern) and enter the expression model as one unit",
                     "`else if` chains, if-let guards, declarations, types, comments (reparse oracle only)",
@@ -1021,6 +1027,63 @@ def run(ctx):
         "hand-written models Model/FmtFull.lean (printer arms literal/id, tuple, block with let / expression statements and optional final expression, FieldAccess/MethodAccess/Call chains with argument lists, Unary, Binary incl. ends_with_member_name, IfElse with block branches, Match with cases, Lambda; parser parse_expression/parse_match/parse_if_else, parse_disjunction..parse_factor, parse_unary_expression, parse_function_call_or_field_access incl. the `<`-after-member-name rule and argument lists, parse_base_expression with nested-expression unwrapping, tuples, blocks and lambdas, parse_block / parse_statement), Model/FmtPat.lean (matching_pattern_to_document vs pattern_parser), Model/FmtEval.lean (evaluation semantics) and Model/Fmt.lean (tables; lex_str_lit_opt, unescape_quotes, process_raw_token)",
         "driver-side character lexer and token grouping of the fragment (Driver/C08.lean lexWords/group: member names with optional `<T>`, match patterns `U(v) ->`, `U ->`, `_ ->`, lambda parameter lists as single units) and the tree dump of harness/src/bin/c08.rs (erases locations, comments, resolved module references, field/tag orders; imports normalised by merge+sort)",
         "not modelled (reparse oracle only): declarations, types, else-if chains, if-let, comments"])
+
+
+SIZES = (1, 2, 15, 16, 17)
+FIRSTS = ["a", "(a)", "(a + 1)", "1", "Abc", "((a) -> a)", "(a.b)", "(f(a))", "-a", "this", "(a, b)"]
+
+
+def size_family():
+    """boundary sizes for every construct with a size limit or a second parser path.
+    Returns (E texts with their (kind, n, first) key, P texts, M texts)."""
+    ids = [f"e{i}" for i in range(1, 40)]
+    E, P, M = [], [], []
+    for n in SIZES:
+        rest = ids[:n - 1]
+        for ft in FIRSTS:
+            tup = "(" + ", ".join([ft] + rest) + ")"
+            E.append((("tuple", n, ft), tup))
+            if ft in ("a", "(a)", "(a + 1)", "1"):
+                E.append((("tuple-in-call", n, ft), f"f({tup})"))
+                E.append((("tuple-in-let", n, ft), f"{{ let t = {tup}; t }}"))
+                E.append((("tuple-in-lambda", n, ft), f"(x) -> {tup}"))
+            E.append((("call-args", n, ft), "g(" + ", ".join([ft] + rest) + ")"))
+        E.append((("lambda-params", n, "-"), "(" + ", ".join(f"p{i}" for i in range(n)) + ") -> p0"))
+        E.append((("tuple-nested-last", n, "-"), "(" + ", ".join(rest + ["(a, b)"]) + ")" if n > 1 else "((a, b))"))
+        vs = [f"v{i}" for i in range(n)]
+        P += ["(" + ", ".join(vs) + ")", "A(" + ", ".join(vs) + ")", "{ " + ", ".join(vs) + " }",
+              "(" + ", ".join(["A(v0)"] + vs[1:]) + ")", " | ".join(f"K{i}" for i in range(n))]
+        ints = ", ".join(["int"] * n)
+        M += [f"class C(" + ", ".join(f"val f{i}: int" for i in range(n)) + ") { function g(): int = 1 }",
+              f"class C {{ function g(" + ", ".join(f"p{i}: int" for i in range(n)) + "): int = p0 }",
+              f"class F<" + ", ".join(f"T{i}" for i in range(n)) + "> { function g(x: F<" + ints + ">): int = 1 }",
+              f"class C {{ function g(h: ({ints}) -> int): int = 1 }}",
+              f"class E(A({ints}), B) {{ function g(): int = 1 }}",
+              f"class C {{ function g(): int = {{ let (" + ", ".join(vs) + ") = ((a), " + ", ".join(ids[:n - 1]) + "); 1 } }" if n > 1 else
+              "class C { function g(): int = { let (v0) = ((a)); 1 } }"]
+    return E, P, M
+
+
+def size_boundary_leg(ctx, r, model_ok):
+    """deterministic boundary-size family + parser path independence (the tuple-building paths of the
+    parser must agree on accept/reject for the same element list)."""
+    E, P, M = size_family()
+    lines = [f"E 100 {hexs(t)}" for _, t in E] + [f"E 30 {hexs(t)}" for _, t in E] + [f"P 100 {hexs(t)}" for t in P]
+    r.expr_batch(lines, "boundary sizes", model=model_ok)
+    r.module_batch([(f"size-family#{i}", w, t) for i, t in enumerate(M) for w in (100, 40)], "boundary sizes")
+    _, impl, _ = common.run_exec(common.harness_bin("C08"), [], [f"E 100 {hexs(t)}" for _, t in E])
+    groups = {}
+    for (key, t), a in zip(E, impl):
+        groups.setdefault(key[:2], []).append((key[2], t, a != "perr"))
+    st = {"E": len(E), "P": len(P), "M": len(M), "path_groups": len(groups)}
+    for (kind, n), members in groups.items():
+        if len(set(ok for _, _, ok in members)) > 1:
+            acc = [t for _, t, ok in members if ok][0]
+            rej = [t for _, t, ok in members if not ok][0]
+            r.violation(f"parser path dependence: a {kind} of {n} elements is accepted as `{acc[:60]}…` but rejected as `{rej[:60]}…` (acceptance must depend on the element count only)",
+                        {"protocol": "fmt-expr", "accepted": acc, "rejected": rej, "kind": kind, "n": n,
+                         "op": f"E 100 {hexs(acc)}"}, ("path", kind, n))
+    return st
 
 
 CLI_TARGET = os.path.join(common.HARNESS, "target", "cli")
@@ -1096,7 +1159,8 @@ def cli_leg(ctx, r, rng):
         rc, err = run(projs["A"], [])
         after = tree_of(projs["A"])
         if rc != 0:
-            bad(f"`samlang format` exited with {rc}: {err.strip()[-300:]}", projs["A"], {"rc": rc, "stderr": err[-2000:]})
+            pl = next((l for l in err.splitlines() if "panicked at" in l), "") + " " + next((l for l in err.splitlines() if "Error" in l or "No such file" in l), "")
+            bad(f"`samlang format` exited with {rc}: {(pl.strip() or err.strip())[:300]}", projs["A"], {"rc": rc, "stderr": err[-2000:]})
         if set(after) != set(before):
             bad(f"`samlang format` created or removed files: {sorted(set(after) ^ set(before))}", projs["A"], {})
         for k, exp in expected.items():
